@@ -29,11 +29,24 @@ class C01(core.Check):
         "faces or whole lattice planes declared as merged patch pairs (slave corners get vertices of their own). Non-trivial = at least two blocks share an "
         "edge; distinct = different assembly/chops."
     )
-    assumptions = [
+    PROP_ASSUMPTIONS = [
         "expansion of a chop on a wire is an oracle (independent geometric-progression arithmetic in the harness; C03's subject)",
         "count resolution of size-based chops uses the library's Chop.calculate on the axis' average length (C03's subject)",
         "iteration order of Axis.neighbours / Wire.coincidents is read from the implementation and handed to the model as schedule",
     ]
+    assumptions = [
+        "wire lengths (Wire.length, floats) are read from the implementation and enter the model as exact rationals; the model "
+        "computes in exact arithmetic, the implementation in floats: specifications are compared to 1e-6 relative",
+        "the answers of the numeric solvers (brentq roots of s(1+c+..+c^(n-1)) = L, T**(1/(n-1))) are found by bisection in the "
+        "harness and accepted by the model only if they satisfy C03's exact specification of the step (residual 1e-9); counts, "
+        "preserved quantities, expansions per wire and the schedule are computed by the model",
+        "where the exact count of a size-based chop and the library's differ because a quotient sits on a whole number within float "
+        "rounding, the model continues with the library's count if it satisfies the count specification to 1e-9 (listed in B[..])",
+    ]
+    partial_note = (
+        "cases whose preserved size does not fit an edge or needs an extreme ratio (brentq bracket) are judged by the file oracles only, "
+        "not by the model; `count_start`/`count_end` with preserve=size need one validated solver answer per wire"
+    )
 
     def corpus(self) -> List[dict]:
         """the three propagation properties share their minimised cases"""
